@@ -200,6 +200,47 @@ def main():
         out["n"] += 1
     except Exception as ex:
         out["problems"].append(f"attribution scenario raised {type(ex).__name__}: {str(ex)[:200]}")
+    # ---- the same literal on several lines, constants assembled into blocks: every load site keeps its own line ----------
+    try:
+        src2 = os.path.join(tmpdir, "usermod2.py")
+        body = ["import pyteal as pt", "", "def program():", "    return pt.Seq("]
+        sites = []      # (marker text in the TEAL comment, source line) in program order
+        for i in range(9):
+            lit, mark = [("pt.Int(777)", "777"), ("pt.Bytes('dup')", '"dup"'), ("pt.Int(123456)", "123456")][i % 3]
+            if i % 2:
+                body.append("        pt.Pop(")
+                body.append(f"            {lit}")
+                sites.append((mark, len(body)))
+                body.append("        ),")
+            else:
+                body.append(f"        pt.Pop({lit}),")
+                sites.append((mark, len(body)))
+        body += ["        pt.Approve(),", "    )", ""]
+        with open(src2, "w") as f:
+            f.write("\n".join(body))
+        spec2 = importlib.util.spec_from_file_location("usermod2", src2)
+        mod2 = importlib.util.module_from_spec(spec2)
+        spec2.loader.exec_module(mod2)
+        for ver in (4, 8):
+            res = Compilation(mod2.program(), pt.Mode.Application, version=ver, assemble_constants=True).compile(with_sourcemap=True)
+            r3 = res.sourcemap.r3_sourcemap
+            tl = res.teal.split("\n")
+            loads = [i for i, l in enumerate(tl) if "//" in l and l.split("//")[0].split()[0] in ("intc", "intc_0", "intc_1", "intc_2", "intc_3", "bytec", "bytec_0", "bytec_1", "bytec_2", "bytec_3", "pushint", "pushbytes")
+                     and l.split("//", 1)[1].strip() in ("777", '"dup"', "123456")]
+            if len(loads) != len(sites):
+                out["problems"].append(f"assembled-constants scenario v{ver}: {len(loads)} constant-load lines for {len(sites)} literals (harness expectation)")
+                continue
+            for (mark, line), ti in zip(sites, loads):
+                if tl[ti].split("//", 1)[1].strip() != mark:
+                    out["problems"].append(f"assembled-constants scenario v{ver}: TEAL line {ti} is {tl[ti]!r}, expected a load of {mark}")
+                    break
+                m = r3.entries.get((ti, 0))
+                if m is None or os.path.realpath(m.source or "") != os.path.realpath(src2) or m.source_line + 1 != line:
+                    out["problems"].append(f"with assembled constants (v{ver}) the literal {mark} written on usermod2.py:{line} (TEAL line {ti}) is attributed to line {(m.source_line if m else -2) + 1}")
+                    break
+            out["n"] += 1
+    except Exception as ex:
+        out["problems"].append(f"assembled-constants attribution scenario raised {type(ex).__name__}: {str(ex)[:200]}")
     import shutil
     shutil.rmtree(tmpdir, ignore_errors=True)
     print("RESULT " + json.dumps(out))
